@@ -13,6 +13,10 @@ floats travel as `b<ieee bits>`, lists are comma separated, `-` is "absent".
        `path=none` answers the `(K, phi)` of the nothing-to-split branch)
   peq-final z=<fs> v=<fs>            -> molL=<fs>        closing formula of pseudo_equilibrium
   inner phi=<f> z=<fs> v=<fs> gx=<fs> gy=<fs>   -> x=<fs> y=<fs> out=<fs>   one inner-loop evaluation
+  phases changed=<0|1>      -> caches=<fresh|kept>   `ms.phases = …` (explicitly or through ms.vle/.lle/.sle); a change
+                                                       of the set resets the caches, so the LLE/SLE state is forgotten
+  retrieve kind=<vle|lle|sle> -> bound=<0|1> loaded=<new|old>   the accessor: is the solver handed out bound to the
+                                                       stream's current indexer; was it loaded by this retrieval
   sle-reset
   sle-call s=<nat> T=<f> Tm=<f> given=<f|-> x=<f|-> liq=<fs> sol=<fs> nz=<nats> idx=<nats>
       -> pure=<0|1> liq=<fs> sol=<fs>   |  err=no-solute
@@ -26,6 +30,7 @@ local instance : One Float := ⟨1.0⟩
 structure St where
   lle : Option (Stored Float) := none
   sle : SleState := {}
+  sm : StreamM := StreamM.init
 
 def kv (toks : List String) (key : String) : Option String :=
   let pre := key ++ "="
@@ -135,8 +140,22 @@ def sleCallLine (st : St) (t : List String) : Option (St × String) := do
 
 def step (st : St) (line : String) : St × String :=
   match splitWs line with
-  | ["lle-reset"] => ({ st with lle := none }, "ok")
-  | ["sle-reset"] => ({ st with sle := {} }, "ok")
+  | ["lle-reset"] => ({ st with lle := none, sm := st.sm.resetCache }, "ok")
+  | ["sle-reset"] => ({ st with sle := {}, sm := st.sm.resetCache }, "ok")
+  | ["phases", c] =>
+    match kv [c] "changed" with
+    | some "1" => ({ st with lle := none, sle := {}, sm := st.sm.setPhases true }, "caches=fresh")
+    | some "0" => ({ st with sm := st.sm.setPhases false }, "caches=kept")
+    | _ => (st, "bad-op")
+  | ["retrieve", k] =>
+    match (match kv [k] "kind" with
+      | some "vle" => some Kind.vle | some "lle" => some Kind.lle | some "sle" => some Kind.sle
+      | _ => none) with
+    | some kind =>
+      let wasLoaded := (st.sm.cache kind).value.isSome
+      let (sm', b) := st.sm.retrieve kind
+      ({ st with sm := sm' }, s!"bound={b01 (b == sm'.imol)} loaded={if wasLoaded then "old" else "new"}")
+    | none => (st, "bad-op")
   | "lle-call" :: t => (lleCall st t).getD (st, "bad-op")
   | "peq-final" :: t => (st, (peqFinal t).getD "bad-op")
   | "inner" :: t => (st, (inner t).getD "bad-op")
